@@ -78,12 +78,12 @@ def _series(u, n, i, j, by_name, w):
     conns = (p1, p2) if by_name else (hu.ports[p1], hu.ports[p2])
     if isinstance(hu, h.Module) and not by_name:
         h.elaborate(hu)  # the unit has been elaborated (its bundle port flattened) before the generator sees it
-    if env.SYM:
+    if env.SYM and callable(getattr(Series, "func", None)):
         m = Series.func(_Duck(unit=hu, conns=conns, nser=n))  # n stays symbolic through the generator body
         if m.name is None:
             m.name = "S"
     else:
-        m = Series(unit=hu, conns=conns, nser=n)
+        m = Series(unit=hu, conns=conns, nser=env.realize(n))
     if not _same_interface(m, ud):
         return False
     pkg = h.to_proto(m)
